@@ -57,7 +57,8 @@ CLAIMED["C20"] = dict(
           "from outside followed by a re-index; four lookups). "
           "Invariant 'a valid index is sound and complete' proved for the initial state and every operation, lifted to every "
           "operation history by fold_left; corollaries: a lookup raises (stale index / unknown key) or returns a group/position "
-          "currently containing the protein; a protein in no group is reported missing by every lookup. Correspondence: "
+          "currently containing the protein; a protein in no group is reported missing by every lookup; a re-index after an outside edit "
+          "forgets every protein that left the collection. Correspondence: "
           "exhaustive operation sequences (length <= 3 quick, <= 4 thorough, 12-operation alphabet) and random histories, "
           "compared outcome by outcome with the model evaluated in Coq; a Python monitor of the property classifies "
           "disagreements."),
@@ -235,7 +236,8 @@ CLAIMED["C10"] = dict(
           "skip, razor filter, purge), the six cell-level row decoders and the best-score fold over all files. Theorems for all "
           "row lists: the stored PEP of a stripped peptide is the minimum over all its PSMs with a PEP in all files, with the "
           "proteins of a PSM attaining it, independent of row/file order; peptides built from residues and one-level (..)/[..] or "
-          "two-level parenthesised modifications strip to their residues; the purge leaves all-decoy lists alone and removes decoy "
+          "two-level parenthesised modifications strip to their residues; Percolator flanks 'x.BODY.y' are recognised and stripped to BODY "
+          "whatever the flank characters; the purge leaves all-decoy lists alone and removes decoy "
           "entries from lists with a target; every list the mapper passes on is pure; unknown peptides are skipped; with well-formed "
           "identifiers every subset group is all-target or all-decoy (with C03). Correspondence on generated files of the six "
           "formats x score types (remap or not, razor), several files with their own maps, Percolator peptides without flanks, with "
